@@ -59,6 +59,11 @@ pub fn gen(seed: u64, tier: Tier) -> ScenarioSpec {
         rec.extras = Extras::default();
         rec.irregular = Irregular::default();
     }
+    // now and then a newer recorder build interleaves events this library does not know (declared in the
+    // payload table), also between the events of two characters of one frame: they open, close and pad nothing
+    if !long_absence && rng.chance(1, 8) {
+        rec.extras.unknown = super::c17::gen_unknown(&mut rng, super::c17::events_hint(&rec), 2);
+    }
     let len = gen::approx_len(&rec);
     // (the long game is read in one shot: the per-event oracle re-examines rows and would take minutes)
     let live = !long_absence && rng.chance(1, 2);
